@@ -73,4 +73,6 @@ func replayFile() json.RawMessage {
 	return b
 }
 
+func replayPath() string { return os.Getenv("VERIF_REPLAY") }
+
 func quick() bool { return ev.Tier() == "quick" }
